@@ -31,6 +31,41 @@ def _san(s):
     return re.sub(r"[^A-Za-z0-9_.-]+", "_", s)[:120]
 
 
+_PINS = None
+
+
+def _pins():
+    global _PINS
+    if _PINS is None:
+        _PINS = {}
+        p = HERE / "contracts" / "obligation_pins.json"
+        if p.exists():
+            try:
+                import hashlib
+
+                d = json.loads(p.read_text())
+                h = hashlib.sha256()
+                for f in sorted(list((HERE / "contracts").glob("*.py")) + list((HERE / "pyvc").glob("*.py"))):
+                    h.update(f.name.encode())
+                    h.update(f.read_bytes())
+                if d.get("digest") == h.hexdigest()[:20]:
+                    _PINS = {k: set(v) for k, v in d["functions"].items()}
+            except Exception:
+                _PINS = {}
+    return _PINS
+
+
+def in_baseline(target, ob_id):
+    """True when the obligation (line numbers stripped) was discharged on the tree the contracts were proved on, or when no
+    (fresh) pin file exists for this contract - then every refuted obligation counts, as before."""
+    import re
+
+    pins = _pins().get(target)
+    if pins is None:
+        return True
+    return re.sub(r"@\d+", "@", ob_id.split("#p")[0]) in pins
+
+
 def match_known(kf, pid, ob_id=None, finding=None):
     for k in kf:
         if k.get("status", "open") != "open":
@@ -99,9 +134,16 @@ def finish(pid, tier, seed, t0, results, lemma_results, standin_results, known, 
                 k = match_known(known, pid, ob_id=o["id"])
                 if k:
                     known_hits.append((k, o))
+                    nf += 1
+                elif not in_baseline(r["target"], o["id"]):
+                    # refuted, but this obligation has no counterpart that was proved on the baseline tree (e.g. an assertion or a
+                    # call introduced by the change, which the abstraction of the contract cannot decide): undecided, not a violation
+                    total += 1
+                    undecided.append(f"{o['id']}#p{o['path']} (refuted by {o['backend']}, but the obligation is not part of the proved baseline: "
+                                     f"no verdict without a native failing input)")
                 else:
                     violations.append(("obligation", r, o))
-                nf += 1
+                    nf += 1
             else:
                 # not discharged and not refuted by a solver: look for a native failing input of the function (bounded search)
                 code = None
